@@ -102,7 +102,8 @@ let handle line =
       let exp = show_opt (read_at (n_of_hex ts) (bytes_of_hex k) t) in
       bump ("GET:" ^ label ^ ":" ^ (if res = "none" then "none" else if is_pref "v:" res then "val" else "fail"));
       Hashtbl.replace distinct ("G" ^ hid ^ ts ^ k ^ res) ();
-      if exp <> res then propfail line "get<>read_at" exp
+      if label = "fault" && res = "err:injected" then bump "FAULT:get-failed"
+      else if exp <> res then propfail line "get<>read_at" exp
   | ["BGET"; hid; label; ts; ks; "=>"; res] ->
       incr n; incr pn;
       let t = get_truth (int_of_string hid) in
@@ -111,7 +112,8 @@ let handle line =
       let exp = List.filter_map (fun k -> match read_at (n_of_hex ts) k t with Some v -> Some (k, v) | None -> None) ks in
       bump ("BGET:" ^ label ^ ":" ^ (if is_pref "err" res || is_pref "panic" res then "fail" else "ok"));
       Hashtbl.replace distinct ("B" ^ hid ^ ts ^ res) ();
-      if show_kvs false exp <> res then propfail line "batchget<>read_at" (show_kvs false exp)
+      if label = "fault" && res = "err:injected" then bump "FAULT:batchget-failed"
+      else if show_kvs false exp <> res then propfail line "batchget<>read_at" (show_kvs false exp)
   | ["SCAN"; hid; label; ts; lo; hi; batch; ko; rev; nreg; "=>"; res; trace] ->
       incr n; incr pn;
       let t = get_truth (int_of_string hid) in
@@ -152,12 +154,14 @@ let handle line =
         let a = String.sub o 2 (String.length o - 2) in
         match o.[0] with
         | 'g' -> CGet (bytes_of_hex a) | 'b' -> CBatchGet (keys_of a) | 't' -> CSetTS (n_of_hex a)
+        | 'G' -> CGetErr (bytes_of_hex a) | 'B' -> CBatchErr (keys_of a, [])
         | _ -> failwith "cache op") (String.split_on_char ';' ops) in
       let rd ts k = read_at ts k t in
       let s0 = { version = hts; cached = None } in
       let show r = match r with
         | RGet o -> show_opt o
         | RUnit -> "ok"
+        | RErr -> "err:injected"
         | RBatch l ->
             let l = List.sort_uniq compare l in
             let l = List.sort (fun (a, _) (b, _) -> match lex_cmp a b with Lt -> -1 | Eq -> 0 | Gt -> 1) l in
